@@ -343,6 +343,10 @@ where
             let (mut res_dft_tmp, scratch_2) = scratch_1.take_vec_znx_dft(self, cols_out, pmat.size());
             res_dft_tmp.zero();
 
+            // For dsize > 2 the first product (di = 0) writes fewer limbs than the later ones are
+            // accumulated into: clear the accumulator, callers may hand in uninitialised scratch.
+            res.zero();
+
             for di in 0..dsize {
                 // Sets ai_dft size according to the current digit (if dsize does not divides a_size),
                 // bounded by the number of rows (digits) in the prepared matrix.
